@@ -17,6 +17,7 @@ Monitors (all runtime monitoring of the real code):
         removal from inside actions, one-shots).
   midi  dispatch model vs MidiFunc responders fed through the registered MIDI
         receive function (types, ports, dict templates, one-shots, faults).
+        Observation only (counters observed_midi/*): MIDI is outside C18.
   tcp   harness peer writes whole / coalesced / fragmented size-prefixed
         frames to the library's OscTcpInterface; exact in-order delivery.
 """
@@ -53,6 +54,12 @@ ASSUMPTIONS = [
     "counted (lenient_dispatch/*); valid messages with optional OSC 1.0 type tags "
     "(N I h S ...) may be delivered exactly or discarded, never altered; valid "
     "nesting deeper than 300 bundles may be dropped as a whole",
+    "MidiFunc (not OSC) is exercised for coverage of the shared dispatcher code "
+    "only; its disagreements are counters observed_midi/*, never a verdict "
+    "(proposed_fixes/C18-midi-dispatch.md is a note for the maintainer)",
+    "TCP: no verdict on elapsed time - an undelivered canary only makes the harness "
+    "end the stream; the final state after EOF, reader termination and a SystemClock "
+    "flush is judged; a reader still running 30 s after EOF is inconclusive",
     "TCP: frames are written by the harness peer with 2 ms pauses between fragments; "
     "a pause the reader does not observe only makes the case less effective",
     "responder invocation, not delivery latency, is decided; waiting is on a canary "
